@@ -112,13 +112,19 @@ class H2Client:
     """h2 in client role; raises (h2 exceptions) on any flow-control / framing violation by the server."""
 
     def __init__(self, initial_window: Optional[int] = None, max_frame: Optional[int] = None, enable_push: bool = False,
-                 auto_window: bool = True, validate_outbound: bool = True) -> None:
+                 auto_window: bool = True, validate_outbound: bool = True, upgrade: bool = False) -> None:
         self.conn = h2.connection.H2Connection(config=h2.config.H2Configuration(
             client_side=True, header_encoding=None, validate_outbound_headers=validate_outbound,
             normalize_outbound_headers=validate_outbound))
         settings = {h2.settings.SettingCodes.ENABLE_PUSH: int(enable_push)}
         self.conn.local_settings.update(settings)
-        self.conn.initiate_connection()
+        # `upgrade`: the connection starts as an HTTP/1.1 request with `Upgrade: h2c`; `upgrade_settings` is the value of its
+        # HTTP2-Settings header, the request is stream 1 (half-closed on this side) once the server has answered 101
+        self.upgrade_settings: Optional[bytes] = None
+        if upgrade:
+            self.upgrade_settings = self.conn.initiate_upgrade_connection()
+        else:
+            self.conn.initiate_connection()
         # INITIAL_WINDOW_SIZE / MAX_FRAME_SIZE must actually reach the server: `local_settings.update()` before
         # `initiate_connection()` only queues a *pending* local value (h2 sends the current ones), so the client would
         # believe in a window the server never heard of.  A second SETTINGS frame right behind the preface carries them;
